@@ -1,4 +1,4 @@
-import CDVProofs.FieldsRT
+import CDVProofs.CodeTop
 /-! # C01 / C09 — the operand tables of a code object survive `from_code` → `to_code` -/
 namespace CDV.Props.C01
 open CDV
@@ -61,6 +61,46 @@ theorem C01_fields_roundtrip (v : Ver) (T : OpTable) (F : FlagTable) (dec : RawC
       c' = .mk argc pos kw nl ss fl fln code' lt' fname name names varnames freevars cellvars consts' :=
   decoded_fields_roundtrip v T F dec enc argc pos kw nl ss fl fln code lt fname name names varnames freevars cellvars consts d c'
     hA h hlen hnodup hpos37 henc
+
+/-- **`co_code` byte for byte.**  For every code object on which `from_code` succeeds, under facts CPython guarantees
+    for compiled code — the bytecode does not end inside an instruction and has at most three `EXTENDED_ARG` prefixes per
+    instruction; instructions other than jumps are written in the minimal width; jump targets are instruction starts; parameter, cell and free variable names are distinct: whenever
+    `blocks_to_bytes` returns on the decoded data, the bytes it assembles are exactly the original `co_code`.
+    (The operand-width loop, started with every jump one unit wide, climbs to the original layout and stops there:
+    `relax_reproduces`.)  With `C01_fields_roundtrip` this leaves only the line table, whose byte-equality is false in
+    general (known findings) and is covered semantically by the C10 theorems. -/
+theorem C01_code_bytes (v : Ver) (T : OpTable) (F : FlagTable) (dec : RawCode → R CodeData)
+    (argc pos kw nl ss fl : Nat) (fln : Int) (code lt : List Nat) (fname name : PStr) (names varnames freevars cellvars : List PStr)
+    (consts : List RConst) (d : CodeData) (out : BlocksOut)
+    (h : toCodeDataGo v T F dec (.mk argc pos kw nl ss fl fln code lt fname name names varnames freevars cellvars consts) = .ok d)
+    (hlen : argc + kw + (if fl.testBit bVARARGS then 1 else 0) + (if fl.testBit bVARKEYWORDS then 1 else 0) ≤ varnames.length)
+    (hnodup : (varnames.take (argc + kw + (if fl.testBit bVARARGS then 1 else 0) + (if fl.testBit bVARKEYWORDS then 1 else 0))).Nodup)
+    (hcode : ∀ x ∈ code, x < 256) (hcomp : Complete code 0)
+    (hpre : ∀ raws, parseBytes code = .ok raws → ∀ r ∈ raws, r.nargs ≤ 4)
+    (hmin : ∀ raws, parseBytes code = .ok raws → ∀ r ∈ raws, T.get r.op ≠ .jabs → T.get r.op ≠ .jrel → r.nargs = instrsize r.arg)
+    (hjs : ∀ raws, parseBytes code = .ok raws → ∀ r ∈ raws,
+      (T.get r.op = .jabs → (decMult v * r.arg).toNat ∈ raws.map (·.first)) ∧
+      (T.get r.op = .jrel → ((r.next : Int) + decMult v * r.arg).toNat ∈ raws.map (·.first)))
+    (hcn : cellvars.Nodup) (hfn : freevars.Nodup)
+    (henc : blocksToBytes v d.blocks d.addArgs d.freevars d.type = .ok out) :
+    out.code = code :=
+  decoded_code_roundtrip v T F dec argc pos kw nl ss fl fln code lt fname name names varnames freevars cellvars consts d out
+    h hlen hnodup hcode hcomp hpre hmin hjs hcn hfn henc
+
+/-- non-vacuity: a 3.8 module body with a conditional forward jump and a backward jump
+    (`LOAD_NAME x; POP_JUMP_IF_FALSE 8; LOAD_CONST; JUMP_ABSOLUTE 0; LOAD_CONST; RETURN_VALUE`) decodes into two blocks
+    and re-assembles to the same bytes -/
+example :
+    let n (s : String) : PStr := ⟨s, true⟩
+    let T : OpTable := ⟨(List.range 160).map fun op => if op == 101 then .name else if op == 100 then .const
+      else if op == 113 || op == 114 then .jabs else if op < 90 then .noarg else .raw⟩
+    let F : FlagTable := ⟨[0, 1, 2, 3, 4, 5, 6, 7, 8, 9, 20], 20⟩
+    let code := [101, 0, 114, 8, 100, 0, 113, 0, 100, 0, 83, 0]
+    let raw : RawCode := .mk 0 0 0 0 1 0x40 1 code [12, 0] (n "m.py") (n "<module>") [n "x"] [] [] [] [.inner .none]
+    ((toCodeData .v38 T F raw).toOption.bind (fun d =>
+      (blocksToBytes .v38 d.blocks d.addArgs d.freevars d.type).toOption.map (fun o => (d.blocks.length, o.code))))
+      = some (2, code) := by
+  decide +kernel
 
 /-- non-vacuity: `def f(x): return x + 1` (3.8: `LOAD_FAST 0; LOAD_CONST 1; BINARY_ADD; RETURN_VALUE`, flags
     OPTIMIZED|NEWLOCALS|NOFREE) decodes, its decoding encodes, and the name tables come back -/
